@@ -1278,6 +1278,20 @@ def site_rewrite(ctx, sf, it, rule, anchor, nth, ropts, what):
         ctx.fire("N6", sf, toks[m0].start, sf.text[toks[m0].start:toks[k].end])
     elif rule == "N5":
         edits += rewrite_for_to_while(ctx, sf, a, b, ropts, what)
+    elif rule == "N16":
+        # `for V in VEC { body }` (VEC a local Vec of Copy elements, consumed by the loop) ->
+        # `{ let V__v = VEC; let mut V__c: usize = 0; while V__c < V__v.len() { let V = V__v[V__c]; V__c += 1; body } }`
+        k = a
+        if toks[k].text != "for" or toks[k + 2].text != "in" or toks[k + 3].kind != "id" or toks[k + 4].text != "{":
+            raise LostAnchor(f"{what}: N16 anchor must be `for V in VEC {{`")
+        var, vec = toks[k + 1].text, toks[k + 3].text
+        body_open, body_close = k + 4, pair[k + 4]
+        head = f"{{ let {var}__v = {vec}; let mut {var}__c: usize = 0; while {var}__c < {var}__v.len() "
+        first = f" let {var} = {var}__v[{var}__c]; {var}__c += 1;"
+        edits += [Edit(toks[k].start, toks[body_open].start, head),
+                  Edit(toks[body_open].end, toks[body_open].end, first, prio=-1),
+                  Edit(toks[body_close].end, toks[body_close].end, " }")]
+        ctx.fire("N16", sf, toks[k].start, f"for {var} in {vec} (by value)")
     elif rule == "N15":
         # `for V in E.chars() { body }` -> `{ let V__v = vx_chars(E); let mut V__c: usize = 0; while V__c < V__v.len() { let V = V__v[V__c]; V__c += 1; body } }`
         # (vx_chars: ASSUMED total stub String -> Vec<char>, the characters in order; break/continue keep their meaning
